@@ -1015,10 +1015,16 @@ impl IPDiversityEnforcer {
             return false;
         }
 
-        // Check ASN limit (shared with IPv6, use peek() for read-only access)
+        // Check ASN limit (shared with IPv6, use peek() for read-only access); halved
+        // for hosting/VPN candidates like every other level
+        let limit_asn = if analysis.is_hosting_provider || analysis.is_vpn_provider {
+            std::cmp::max(1, self.config.max_nodes_per_asn / 2)
+        } else {
+            self.config.max_nodes_per_asn
+        };
         if let Some(asn) = analysis.asn
             && let Some(&count) = self.asn_counts.peek(&asn)
-            && count >= self.config.max_nodes_per_asn
+            && count >= limit_asn
         {
             return false;
         }
